@@ -13,6 +13,8 @@ claimed = {
              text='Every accepted program of the enumerated families runs on VM and interpreter; Go panics are captured per thread, deadlock and livelock are terminal scheduler states, non-termination is a poll-budget overrun. Complete within the bounds.', ref='5/C02'),
  'C04': dict(technique='bounded exhaustive differential enumeration (interpreter vs VM)',
              text='Every accepted program of the enumerated families is run on both backends and the observation records are compared; complete enumeration within the bounds.', ref='5/C04'),
+ 'C09': dict(technique='bounded exhaustive enumeration of (program, limit triple, iteration count) over a limit lattice with a differential oracle',
+             text='Every program of a 4-parameter family is run under every limit triple of a lattice on the VM and every call limit on the interpreter; never a host panic, interrupt kind corresponds to the small limit, monotone in every limit, never stopped when the reference call depth is within the limit, residue zero. Complete within the bounds.', ref='5/C09'),
  'C10': dict(technique='stateless DFS over all thread schedules and cancellation points of the real VM within a delay bound (controlled scheduler); exhaustive cancellation-poll enumeration for the interpreter',
              text='The host cancel is a one-step thread, so every cancellation point is one scheduling deviation; all schedules within the delay bound are executed on the real VM code and judged (Wait returns termination or own outcome, nothing left blocked, bounded overshoot). Deadlock and livelock are terminal states of the scheduler, not timeouts.', ref='5/C10'),
  'C11': dict(technique='bounded exhaustive enumeration of control-flow nestings vs. reference evaluator on both backends',
